@@ -86,6 +86,45 @@ CLAIMED = {
              'buffer/trim structure. Five instances are genuine defects of the unchanged tree (known findings F12-F14). NOT decided: numeric formatting values, agreement of '
              'independent decoders on the encodings.',
         design='5/C17', note='trusts clang template instantiation of drivers/geom.cpp (3 back ends x 2 projections), CFG'),
+    'C05': dict(
+        technique='static analysis: who-may-enqueue rules on the typed call graph, CFG ordering/dominance rules on Reader::read and the nested-buffer code, entity-mask guard extraction per decoder, reuse of the C19 monitor rules',
+        text='Decides each link of the implementation\'s order argument: pool tasks never enqueue and each queue has one producer thread; the future returned by submit is enqueued in the '
+             'same iteration, one enqueue per blob; FIFO monitor discipline (C19 rules); Reader::read drains back buffers before popping, unwinds nested buffers from the deepest, marks eof at '
+             'the end marker and pops only in status okay; nested buffers are never empty, moves keep the chain, every taken/swapped-out buffer is sent and the final buffer flushed; every '
+             'object creation is guarded by the entity mask of its own kind, each PBF field consumed exactly once, read_meta switches metadata only, options forwarded unchanged. '
+             'NOT decided: behaviour under real schedules, decoder content (C01/C02).',
+        design='5/C05', note='trusts clang CFG and the resolved call graph (no edges through expat C callbacks), driver instantiation set'),
+    'C11': dict(
+        technique='static analysis: SORTED engine (sort-before-search, comparator-key prefix agreement), CFG pairing/ordering rules on track/add/remove/handle_complete_relation, dispatch-table agreement',
+        text='Decides: the members-database search key is a prefix of its sort key, the searched vector is sorted over its whole range by the prepare step every lookup follows, key fields are '
+             'never written after construction; track pairs one insert with one increment; add() decrements once per found element, tests has_all_members after the decrement and calls the '
+             'functor only then, after the object was stored; remove() releases from the stash only when it is the last user, evaluated before marking; handle_complete_relation calls the '
+             'callback exactly once before any release and releases every wanted member; per member exactly one of track / set_ref(0) tied to the interest test, consumers skip ref 0; '
+             'member_database dispatch. NOT decided: exactly-once over all histories, lookup-after-release behaviour.',
+        design='5/C11', note='trusts clang CFG/template instantiation of drivers/relarea.cpp'),
+    'C12': dict(
+        technique='static analysis: sibling-agreement rules over every Map subclass (miss-path analysis of get/get_noexcept), bounds-evidence dominance, sort/search key agreement, bit-slice tiling, ERRDISC on mmap calls',
+        text='Decides for all registered map implementations: every path of get() that does not return a stored value throws not_found and get_noexcept returns empty_value (incl. the '
+             'empty-value and key-mismatch tests); dense element access only after size evidence; binary-search key is a prefix of the sort key and sort() exists; FlexMem block/offset tile the '
+             'id bits, switch_to_dense carries every entry before clearing and set_sparse stores before switching, mode dispatch; NodeLocationsForWays sorts both storages under the flag '
+             'before any lookup, sets the flag on every descent and resets the sentinel to the maximum; mmap vector growth fills with empty_value; dumps write the whole vector; registration '
+             'table unique and consistent; mmap/mremap/ftruncate/fstat errors reach a throw. NOT decided: equality of implementations over histories, growth arithmetic, dump byte layout.',
+        design='5/C12', note='trusts clang CFG/template instantiation (drivers index, c12_extra), std container semantics'),
+    'C15': dict(
+        technique='static analysis: bit-slice symbolic evaluation of IdSetDense index arithmetic, sort/unique/search key agreement for relations maps, CFG pairing rules for ItemStash',
+        text='Decides: IdSetDense bitmask/offset/chunk_id partition the id bits exactly once and chunk sizes agree; the end sentinel is representable (one instance is the genuine defect F16); '
+             'iterator skip constants; chunk access guarded; size counter changes exactly on bit flips; copy/swap/clear touch every member; flat_map and IdSetSmall search keys are prefixes of '
+             'the sort key, sort->unique->erase; every map moved into an index was sort_unique\'d after its last modification; 32->64 merge appends every element; narrow store guarded; '
+             'ItemStash remove pairs all four updates, GC rewrites exactly the matching index slot via the callback before memmove, handles are 1-based with a private constructor. '
+             'NOT decided: model equivalence over histories, the should_gc heuristic.',
+        design='5/C15', note='trusts clang CFG/template instantiation (drivers index, core), std algorithm semantics'),
+    'C13': dict(
+        technique='static analysis: interval abstract interpretation (IVAL) of each parser/formatter CFG with exact integer ranges per type, plus failure-assumption walks for strto* sites',
+        text='Decides: every scaled accumulator update in the coordinate/number parsers stays in range on all paths (bounded trip count or a limit test first); strtoll/strtoul call sites '
+             'reject saturation, trailing characters, empty conversions and leading space; set_lon/set_lat(const char*) consume the whole string; every signed negation excludes the type '
+             'minimum; every narrowing conversion of a parsed value is range-checked; digit arithmetic evaluates within 0..9/0..15. Three instances are genuine defects (F6, F17, F18). '
+             'NOT decided: parse(format(x)) == x for all x, rounding correctness, calendar arithmetic.',
+        design='5/C13', note='trusts clang expression types (LP64), CFG; interval analysis is sound by construction (widening only at back edges)'),
     'C14': dict(
         technique='static analysis: exact character-set (interval) evaluation of the escapers\' predicates and bit-slice symbolic evaluation of hex/UTF-8 emitters, compared with the parsers\' own delimiter/decoder tables',
         text='Decides exactly (over all 0x110000 code points, by interval arithmetic on the condition ASTs, never by running code): the OPL pass-through set is disjoint from every '
